@@ -116,8 +116,25 @@ def imports_of(sx):
     return sorted((0 if e[0] == "none" else int(e[0]), int(e[1])) for e in l)
 
 
-def run(pairs, abort=False, serial=False):
-    """pairs: list of (patch_name, patch_bytes, file_name, file_bytes) -> list of result dicts"""
+def _cli(pair):
+    """the same patch and file through the binary built from /repo: (exit status, bytes of the file afterwards, stderr)"""
+    import os, shutil
+    pn, ps, fn, fs = pair
+    d = vlib.scratch("ecli")
+    try:
+        with open(os.path.join(d, "p.patch"), "wb") as f:
+            f.write(ps)
+        with open(os.path.join(d, "a.go"), "wb") as f:
+            f.write(fs)
+        rc, so, se = vlib.run_gopatch(["-p", "p.patch", "a.go"], d)
+        return rc, open(os.path.join(d, "a.go"), "rb").read(), se
+    finally:
+        shutil.rmtree(d, ignore_errors=True)
+
+
+def run(pairs, abort=False, serial=False, cli_every=8):
+    """pairs: list of (patch_name, patch_bytes, file_name, file_bytes) -> list of result dicts.
+    Every cli_every-th case also goes through the binary (main.go has its own copy of the change loop)."""
     reqs = [{"patch": {"name": pn, "src": b64(ps)}, "file": {"name": fn, "src": b64(fs)}} for pn, ps, fn, fs in pairs]
     impl = vlib.harness("engine", {"cases": reqs, "serial": serial})["results"]
     cases, idx = [], []
@@ -131,6 +148,10 @@ def run(pairs, abort=False, serial=False):
         idx.append(i)
     models = vlib.model(cases)
     out = [{"impl": r, "model": None, "diffs": [], "skipped": None} for r in impl]
+    if cli_every and not abort:
+        sel = [i for i in idx if i % cli_every == 0]
+        for i, c in zip(sel, vlib.pmap(lambda i: _cli(pairs[i]), sel)):
+            out[i]["cli"] = c
     for i, m in zip(idx, models):
         out[i]["model"] = m
     for o in out:
@@ -156,6 +177,8 @@ def run(pairs, abort=False, serial=False):
 
 def compare(o):
     r, m = o["impl"], o["model"]
+    if r.get("meta_diff"):
+        o["diffs"].append("the metavariable table compiled for a change differs from its declarations: %s" % "; ".join(r["meta_diff"])[:300])
     msteps = vlib.field(m, "steps")
     isteps = ["err" if s["replace_err"] else ("ok" if s["matched"] else "nomatch") for s in (r["steps"] or [])]
     o["msteps"], o["isteps"] = msteps, isteps
@@ -164,7 +187,26 @@ def compare(o):
         return
     if "err" in isteps:
         return
+    cli = o.get("cli")
+    if cli is not None and "err" not in isteps:
+        want = unb64(r["out"]) if r.get("out") else None
+        if r.get("api_err") or r.get("out_err"):
+            if cli[0] == 0:
+                o["cli_differs"] = "the library reports an error (%s) but the binary exits 0" % (r.get("api_err") or r.get("out_err"))[:120]
+        elif want is not None and cli[1] != want:
+            o["cli_differs"] = "the binary leaves other bytes in the file than patch.File.Apply returns for the same input (exit %d, stderr %r)" % (cli[0], cli[2][:160])
+        elif want is None and "ok" not in isteps and cli[0] == 0 and cli[1] != unb64(r["in_src"]) if r.get("in_src") else False:
+            o["cli_differs"] = "no change applies but the binary modified the file"
+        if o.get("cli_differs"):
+            o["diffs"].append(o["cli_differs"])
+            o["cli_output"] = cli[1]
     if "ok" not in isteps:
+        return
+    # the per-change steps come from the hook (Change.Match / Replace called one by one); the output is what the
+    # public API returned for the same input: its loop must do what the steps say
+    if r.get("api_err") and not r.get("hook_err"):
+        o["api_failed"] = r["api_err"]
+        o["diffs"].append("patch.File.Apply fails (%s) although every change applies when run step by step" % r["api_err"][:160])
         return
     if r["out_err"]:
         o["skipped"] = "output does not print/parse: " + r["out_err"][:120]
